@@ -654,3 +654,8 @@ func (it *stringIter) next() tuple {
 	}
 	return tuple{true, idx, ch}
 }
+
+// opaqueSlice is a byte slice whose length is a symbolic term and whose
+// contents may not be accessed (only len() is supported). Created by
+// vrt.OpaqueBytes for code that depends on a length only.
+type opaqueSlice struct{ n value }
